@@ -96,6 +96,22 @@ def gen_files(P, tr, prop):
     rng = rng_for(prop, tr)
     nr = 2000 if tr == "quick" else 50000
     files += [pc.random_file(rng, P) for _ in range(nr)]
+    # large files (the loader reads any size; 10 KiB, 64 KiB and 1 MiB are typical internal buffer sizes)
+    for kb in ((10, 11, 65, 200) if tr == "quick" else (9, 10, 11, 63, 64, 65, 200, 1100, 4200)):
+        for own in ("absent", "first", "middle", "last"):
+            lines = []
+            i = 0
+            while sum(len(x) + 1 for x in lines) < kb * 1024:
+                lines.append(b"/opt/vendor/lib/libvendor-%06d.so" % i if i % 7 else b"# vendor block %d" % i)
+                i += 1
+            if own == "first":
+                lines.insert(0, P)
+            elif own == "middle":
+                lines.insert(len(lines) // 2, P)
+            elif own == "last":
+                lines.append(P)
+            term = rng.random() < 0.7
+            files.append(("large-%dk-own-%s/%s" % (kb, own, "T" if term else "U"), b"\n".join(lines) + (b"\n" if term else b"")))
     return files
 
 
